@@ -128,6 +128,20 @@ def step (D : Defects) (line : String) : String :=
     | some d => match readMessage P d with
       | .ok (m, rest) => s!"ok {hexOrDash m} rest={rest.length}"
       | .error e => s!"err {errName e}"
+  | ["framec", _k, h] =>
+    -- the same stream delivered in reads of at most k bytes: chunking must not matter
+    match bytesOfHex h with
+    | none => "bad-op"
+    | some d => match readMessage P d with
+      | .ok (m, rest) => s!"ok {hexOrDash m} rest={rest.length}"
+      | .error e => s!"err {errName e}"
+  | ["frames", _k, h] =>
+    -- several frames read one after the other through a buffered reader of capacity k
+    match bytesOfHex h with
+    | none => "bad-op"
+    | some d =>
+      let (ms, e) := readAll P d
+      joinWith " " (ms.map (fun m => s!"ok {hexOrDash m}") ++ [s!"err {errName e}"])
   | ["wframe", h] =>
     match bytesOfHex h with
     | none => "bad-op"
